@@ -91,6 +91,10 @@ type Cluster struct {
 	OnCommit func(c *Cluster, ledgerName string)
 	// CommitFault, when it returns non-nil, makes that top-level COMMIT fail (and roll back).
 	CommitFault func(ctx context.Context) error
+	// OnLockWait, when set, is told (outside the cluster lock) about every lock request that
+	// has to wait. A non-nil error is returned to the requester instead of waiting (what a
+	// statement cancellation does); nil = wait as usual. Unset: no effect.
+	OnLockWait func(ctx context.Context, w LockWait) error
 
 	evMu   sync.Mutex
 	events []Event
@@ -364,6 +368,16 @@ func (c *Cluster) sessionUnlockLocked(s *Session, key string) bool {
 	return true
 }
 
+// LockWait describes a lock request that cannot be granted now (see Cluster.OnLockWait).
+type LockWait struct {
+	Key, Site        string
+	Waiter, Holder   int64 // session ids; Holder owns the lock (or is the first waiter it is promised to)
+	WaiterClient     int   // logical client ids of the contexts the sessions were opened with (-1 = untagged)
+	HolderClient     int
+	HolderWaitingKey string // "" = the holder is not itself waiting for a lock
+	HolderInTxn      bool
+}
+
 // lock blocks until key is held by sess, detecting deadlocks (the requester
 // that closes a wait-for cycle gets 40P01, as Postgres' detector would pick it).
 func (c *Cluster) lock(ctx context.Context, s *Session, key, site string, xact bool) error {
@@ -394,8 +408,22 @@ func (c *Cluster) lock(ctx context.Context, s *Session, key, site string, xact b
 		c.enqueueLocked(s, key)
 		c.stats.lockWaits++
 		ch := c.changed
+		var lw LockWait
+		if c.OnLockWait != nil {
+			lw = LockWait{Key: key, Site: site, Waiter: s.id, WaiterClient: s.client, Holder: holder.id, HolderClient: holder.client,
+				HolderWaitingKey: holder.waitingKey, HolderInTxn: holder.txn != nil}
+		}
 		c.mu.Unlock()
 		c.emit(ctx, s, "lock-wait", site, "", key)
+		if c.OnLockWait != nil {
+			if err := c.OnLockWait(ctx, lw); err != nil {
+				c.mu.Lock()
+				s.waitingKey = ""
+				c.dequeueLocked(s, key)
+				c.mu.Unlock()
+				return err
+			}
+		}
 		if c.Sched != nil {
 			c.Sched.Block(ctx, site+":wait:"+key, func() bool {
 				c.mu.Lock()
